@@ -252,21 +252,27 @@ def find_cases(edges, rng, per_feature_kinds):
 
 def run(ctx):
     rng = random.Random(ctx.seed)
-    r = ctx.tlc("Collections", "Collections.cfg")
-    edges = r.lines.get("EDGE", [])
-    if len(edges) < 100000:
-        raise Exception("graph export too small: %d" % len(edges))
+    if ctx.quick:
+        # quick: first steps from every input of <= 3 items (depth 1), pipelines from every input of <= 2 items
+        edges = ctx.tlc("Collections", "CollectionsQuick1.cfg").lines.get("EDGE", [])
+        pedges = ctx.tlc("Collections", "CollectionsQuick2.cfg").lines.get("EDGE", [])
+    else:
+        edges = ctx.tlc("Collections", "Collections.cfg").lines.get("EDGE", [])
+        pedges = edges
+    if len(edges) < 30000 or len(pedges) < 10000:
+        raise Exception("graph export too small: %d, %d" % (len(edges), len(pedges)))
     out = {}
-    for e in edges:
+    for e in pedges:
         out.setdefault(canon(e["from"]), []).append(e)
     first = [e for e in edges if e["from"]["d"] == 0]
+    pfirst = [e for e in pedges if e["from"]["d"] == 0]
     binary = ctx.go_build("vh-coll")
 
     cases = []
     ops_seen = {}
     # 1. every first-step transition, over kinds and input representations
     combos = [(a, b) for a in KINDS for b in KINDS]
-    per_edge = ctx.pick(1, 6)
+    per_edge = ctx.pick(1, 4)
     for i, e in enumerate(first):
         ks = rng.sample(combos, len(combos))
         made = 0
@@ -284,11 +290,11 @@ def run(ctx):
                 break
     nsingle = len(cases)
     # 2. pipelines: paths of two transitions
-    npipes = ctx.pick(15000, 300000)
+    npipes = ctx.pick(15000, 150000)
     tries = 0
     while len(cases) - nsingle < npipes and tries < npipes * 6:
         tries += 1
-        e1 = rng.choice(first)
+        e1 = rng.choice(pfirst)
         succ = out.get(canon(e1["to"]), [])
         if not succ:
             continue
@@ -313,13 +319,13 @@ def run(ctx):
     fcases = find_cases(fedges, rng, ctx.pick(1, 4))
     for i, c in enumerate(fcases):
         c["id"] = i
-    for e in fedges:
-        ctx.distinct_cases.add(canon(["find", e["from"]["c"], e["ev"]["args"]["key"]]))
+    for c in fcases:
+        ctx.distinct_cases.add(canon(["find", c["build"], c["items"]]))
     ctx.sample({"desc": fcases[11]["desc"], "probes": fcases[11]["probes"][:2]})
     fv = ctx.run_cases(binary, "find", fcases, timeout_ms=20000, name="find")
     ctx.absorb(fv, case_of=lambda i: fcases[i])
 
-    ctx.extra_cov["spec_edges"] = len(edges) + len(fedges)
+    ctx.extra_cov["spec_edges"] = len(edges) + len(fedges) + (len(pedges) if pedges is not edges else 0)
     ctx.extra_cov["first_step_edges_executed_on_impl"] = len(first)
     ctx.extra_cov["pipelines_executed"] = len(cases) - nsingle
     ctx.extra_cov["lookup_cases"] = len(fcases)
